@@ -102,7 +102,7 @@ func obligationQuery(o *Obligation) (string, string) {
 		terms = append(terms, o.Gen.S.instTerms...)
 		for _, t := range append([]string{}, terms...) {
 			if strings.HasPrefix(t, "|sk!") && strings.Contains(t, "!Int!") {
-				terms = append(terms, "(+ "+t+" 1)", "(- "+t+" 1)") // the neighbouring positions (element removal / insertion)
+				terms = append(terms, "(+ "+t+" 1)", "(- "+t+" 1)", "(+ "+t+" 2)") // the neighbouring positions (element removal / insertion; i+2 is the successor after a removal)
 			}
 		}
 		var ctxTerms []string
